@@ -172,6 +172,7 @@ package parser
 //@     invariant [C07,C18:tok-inv] 0 <= startPos && startPos <= $pos && 0 <= endPos && endPos <= $pos && $pos <= slen(text)
 //@     invariant [C07,C18:tok-inv] escape ==> startPos <= endPos
 //@     invariant [C07,C18:tok-inv] (foundNonSpace ==> startPos < $pos) && (foundRegularRune ==> foundNonSpace) && (endOnNext ==> foundNonSpace) && (escape ==> foundNonSpace)
+//@     invariant [C07:code-level] controlCodeLevel >= 0
 //@ end
 
 //@ pred ReserveOverlap(next string, curLineNum int, numLines int) = slen(next) > 0 && (curLineNum >= numLines - 1 || next == "\\p" || next == "\\l")
@@ -258,12 +259,12 @@ package parser
 //@ end
 
 //@ func getMovementsKey
-//@   ensures [C06:movkey] result == MovKey(movements)
+//@   ensures [C06,C14:movkey] result == MovKey(movements)
 //@   loop 1
 //@     use MKeyPcsBase(movements)
 //@     use MKeyPcsStep(movements, $i)
 //@     use MKeyPcsStep(movements, $i - 1)
-//@     invariant [C06:movkey-inv] $i <= len(movements) && sb.pieces == MKeyPcs(movements, $i) && sb.markers == nopieces()
+//@     invariant [C06,C14:movkey-inv] $i <= len(movements) && sb.pieces == MKeyPcs(movements, $i) && sb.markers == nopieces()
 //@ end
 
 // statement-level parse functions only move the token window (and the lexer behind it), the break/continue
@@ -341,6 +342,7 @@ package parser
 //@   ensures [C06,C11:complete] result3 == nil ==> ImpSize(result2) == holes - old(holes)
 //@   ensures [C11,C18:autovar-results] (result3 == nil && result1 != nil) ==> (result0 != nil && fresh(result1))
 //@   ensures [C11,C18:autovar-var] (result3 == nil && result1 == nil) ==> result0 == nil
+//@   ensures [C11:var-plain] (result3 == nil && old(p.peekToken.Type) == token.VAR) ==> (result0 == nil && result1 == nil && result2 == nil)
 //@   ensures [C16:cmd-token] (result3 == nil && result1 != nil) ==> TokLoc(result1.Token)
 //@   ensures [C20:stack-balanced] result3 == nil ==> (SameStack(p.breakStack, old(p.breakStack)) && SameStack(p.continueStack, old(p.continueStack)))
 //@   ensures [C18:located] result3 != nil ==> ErrLoc(result3)
@@ -544,6 +546,10 @@ package parser
 
 //@ func (p *Parser) parseStatement
 //@   include ParseFrame
+// C11: the preamble of a switch is placed directly before the switch
+//@   exit [C11:preamble-first] (result2 == nil && old(p.curToken.Type) == token.SWITCH) ==> (lastresult(parseSwitchStatement, 1) != nil
+//@        ? (len(result0) == 2 && typeis(result0[0], ast.CommandStatement) && as(result0[0], ast.CommandStatement) == lastresult(parseSwitchStatement, 1) && typeis(result0[1], ast.SwitchStatement) && as(result0[1], ast.SwitchStatement) == lastresult(parseSwitchStatement, 0))
+//@        : (len(result0) == 1 && typeis(result0[0], ast.SwitchStatement) && as(result0[0], ast.SwitchStatement) == lastresult(parseSwitchStatement, 0)))
 //@   defines [C10:stmt-count] nstmt = old(nstmt) + len(result0)
 //@   ensures [C18:eof-rejected] result2 == nil ==> old(p.curToken.Type) != token.EOF
 //@   ensures [C06:slot] result2 == nil ==> (ImpOK(result1) && (result1 == nil || fresh(result1)))
@@ -588,6 +594,15 @@ package parser
 
 //@ func (p *Parser) tryParseLabelStatement
 //@   include ParseFrame
+// a statement is a label exactly when it reads 'Name:' or 'Name(global):' / 'Name(local):'; then it is a label of that
+// name, global exactly when written (global), and exactly its tokens are consumed; otherwise nothing happens (C10, C15)
+//@   ensures [C10,C15:label-form] (result != nil) == (old(p.peekToken.Type) == token.COLON
+//@        || (old(p.peekToken.Type) == token.LPAREN && (old(p.peek2Token.Type) == token.GLOBAL || old(p.peek2Token.Type) == token.LOCAL) && old(p.peek3Token.Type) == token.RPAREN && old(p.peek4Token.Type) == token.COLON))
+//@   ensures [C15:label-scope] result != nil ==> (result.Name != nil && result.Name.Value == old(p.curToken.Literal) && result.Token == old(p.curToken)
+//@        && result.IsGlobal == (old(p.peekToken.Type) == token.LPAREN && old(p.peek2Token.Type) == token.GLOBAL))
+//@   ensures [C10:label-window] (result == nil ==> (p.curToken == old(p.curToken) && p.peekToken == old(p.peekToken)))
+//@        && ((result != nil && old(p.peekToken.Type) == token.COLON) ==> p.curToken == old(p.peekToken))
+//@        && ((result != nil && old(p.peekToken.Type) == token.LPAREN) ==> p.curToken == old(p.peek4Token))
 //@   ensures [C20:stack-balanced] SameStack(p.breakStack, old(p.breakStack)) && SameStack(p.continueStack, old(p.continueStack))
 //@   loopinv [C20:stack-balanced-inv] SameStack(p.breakStack, old(p.breakStack)) && SameStack(p.continueStack, old(p.continueStack))
 //@ end
@@ -759,10 +774,15 @@ package parser
 //@        && (forall k int :: {result0.MapScripts[k]} (0 <= k && k < len(result0.MapScripts)) ==> PlainEntryOK(result0.MapScripts[k], result0.Name.Value))
 //@        && (forall t int :: {result0.TableMapScripts[t]} (0 <= t && t < len(result0.TableMapScripts)) ==> TableOK(result0.TableMapScripts[t], result0.Name.Value)))
 //@   loop 1
+//@     transition [C08:inline-script] prev(p.peekToken.Type) == token.LBRACE ==> (len(statement.MapScripts) == len(prev(statement.MapScripts)) + 1
+//@        && statement.MapScripts[len(prev(statement.MapScripts))].Script != nil && statement.MapScripts[len(prev(statement.MapScripts))].Script.Body == lastresult(parseBlockStatement, 0)
+//@        && statement.MapScripts[len(prev(statement.MapScripts))].Type == prev(p.curToken))
 //@     invariant [C08:inline-names-inv] statement != nil && fresh(statement) && statement.Name != nil && fresh(statement.Name)
 //@        && (forall k int :: {statement.MapScripts[k]} (0 <= k && k < len(statement.MapScripts)) ==> PlainEntryOK(statement.MapScripts[k], statement.Name.Value))
 //@        && (forall t int :: {statement.TableMapScripts[t]} (0 <= t && t < len(statement.TableMapScripts)) ==> TableOK(statement.TableMapScripts[t], statement.Name.Value))
 //@   loop 2
+//@     transition [C08:inline-script] len(tableEntries) == len(prev(tableEntries)) + 1 && (called(parseBlockStatement)
+//@        ==> (tableEntries[len(prev(tableEntries))].Script != nil && tableEntries[len(prev(tableEntries))].Script.Body == lastresult(parseBlockStatement, 0)))
 //@     invariant [C08:inline-names-inv] statement != nil && fresh(statement) && statement.Name != nil && fresh(statement.Name)
 //@        && (forall k int :: {statement.MapScripts[k]} (0 <= k && k < len(statement.MapScripts)) ==> PlainEntryOK(statement.MapScripts[k], statement.Name.Value))
 //@        && (forall t int :: {statement.TableMapScripts[t]} (0 <= t && t < len(statement.TableMapScripts)) ==> TableOK(statement.TableMapScripts[t], statement.Name.Value))
@@ -861,6 +881,10 @@ package parser
 
 //@ func (p *Parser) parseSwitchStatement
 //@   include ParseFrame
+// C11: a switch on an AutoVar command returns that command as preamble - whatever its cases look like
+//@   exit [C11:switch-preamble] (result3 == nil && old(p.peek2Token.Type) != token.VAR) ==> (result1 != nil && result1 == lastresult(expectPeekVarOrAutoVar, 1))
+//@   ensures [C18:switch-result] result3 == nil ==> (result0 != nil && fresh(result0))
+//@   exit [C11:switch-no-preamble] (result3 == nil && old(p.peek2Token.Type) == token.VAR) ==> result1 == nil
 //@   ensures [C16:operand-token] result3 == nil ==> (TokLoc(result0.Operand) && TokLoc(result0.Token))
 //@   loopinv [C18:switch-token] statement.Token == old(p.curToken)
 //@   loopinv [C06:slot-inv] resultImpData != nil && fresh(resultImpData) && ImpOK(resultImpData)
@@ -877,6 +901,10 @@ package parser
 //@   ensures [C13,C20:dup-case] result3 == nil ==> (forall a int, b int :: {result0.Cases[a], result0.Cases[b]} (0 <= a && a < b && b < len(result0.Cases) && !result0.Cases[a].IsDefault && !result0.Cases[b].IsDefault) ==> result0.Cases[a].Value.Literal != result0.Cases[b].Value.Literal)
 //@   ensures [C20:one-default] result3 == nil ==> (forall a int, b int :: {result0.Cases[a], result0.Cases[b]} (0 <= a && a < b && b < len(result0.Cases)) ==> !(result0.Cases[a].IsDefault && result0.Cases[b].IsDefault))
 //@   loop 2
+//@     transition [C03:case-body] called(parseSwitchBlockStatement) ==> (len(statement.Cases) == len(prev(statement.Cases)) + 1
+//@        && statement.Cases[len(prev(statement.Cases))].Body == lastresult(parseSwitchBlockStatement, 0)
+//@        && len(statement.Cases[len(prev(statement.Cases))].Body.Statements) == nstmt - prev(nstmt)
+//@        && (forall k int :: {statement.Cases[k]} (0 <= k && k < len(prev(statement.Cases))) ==> statement.Cases[k] == prev(statement.Cases)[k]))
 //@     invariant [C16:operand-token-inv] TokLoc(statement.Operand)
 //@     invariant [C13,C20:dup-case-inv] caseValues != nil && fresh(caseValues) && fresh(statement) && (forall a int :: {statement.Cases[a]} (0 <= a && a < len(statement.Cases)) ==> (statement.Cases[a] != nil && fresh(statement.Cases[a]) && (!statement.Cases[a].IsDefault ==> (indom(caseValues, statement.Cases[a].Value.Literal) && caseValues[statement.Cases[a].Value.Literal]))))
 //@     invariant [C13,C20:dup-case-inv2] forall a int, b int :: {statement.Cases[a], statement.Cases[b]} (0 <= a && a < b && b < len(statement.Cases) && !statement.Cases[a].IsDefault && !statement.Cases[b].IsDefault) ==> statement.Cases[a].Value.Literal != statement.Cases[b].Value.Literal
